@@ -26,13 +26,14 @@ def c07(tier):
     g = tlc("Pager", "gen.cfg", files={"gen.cfg": cfg}, extra=["-seed", str(seed())], workers=8)
     ck.add_tlc(g)
     behaviours = sorted(g.lines, key=lambda b: b["run"])
-    cfg = write_cfg(['Mode = "sizes"', "MaxSid = 201", "MaxWrites = 0", "NRuns = 0", "NSteps = 0"],
+    cfg = write_cfg(['Mode = "sizes"', "MaxSid = 2001", "MaxWrites = 0", "NRuns = 0", "NSteps = 0"],
                     invariants=["PageBound", "NoDuplicates", "ExactWhenQuiet", "NonFinalPagesFull"])
     z = tlc("Pager", "sizes.cfg", files={"sizes.cfg": cfg})
     ck.add_tlc(z)
     sizes = z.lines
     if tier == "quick":
-        sizes = [s for s in sizes if s["n"] <= 14 or (s["n"] in (100, 101, 201) and s["size"] in (3, 100)) or (s["n"] == 99 and s["size"] == 100)]
+        sizes = [s for s in sizes if s["n"] <= 14 or (s["n"] in (100, 101, 201) and s["size"] in (3, 100)) or (s["n"] == 99 and s["size"] == 100)
+                 or (s["n"] in (1002, 1500) and s["size"] in (1000, 1001, 2000))]
     inp = {"behaviours": [{"run": b["run"], "steps": [{k: s.get(k) for k in ("op", "sid", "kind", "size") if k in s} for s in b["steps"]]} for b in behaviours],
            "sizes": [{"n": s["n"], "size": s["size"]} for s in sizes], "bad_tokens": BAD_TOKENS}
     recs = run_harness(binary, "pager", inp)
